@@ -144,7 +144,7 @@ func (p *parser) match(k tokKind) token {
 // Parse parses a JMESPath expression.
 func Parse(text string) (res ParseResult) {
 	if !utf8.ValidString(text) {
-		return ParseResult{Status: ParseSyntax, Err: "invalid UTF-8"}
+		return ParseResult{Status: ParseSyntax, Err: "invalid UTF-8", HasCall: looksLikeCall(text)}
 	}
 	toks, gaps, err := lex(text)
 	for i := 0; i+1 < len(toks); i++ {
@@ -155,6 +155,7 @@ func Parse(text string) (res ParseResult) {
 	if err != nil {
 		// a lexical error after a call may still be reported as a static
 		// function fault by an implementation that checks eagerly
+		res.HasCall = looksLikeCall(text)
 		res.Status = ParseSyntax
 		res.Err = err.Error()
 		if len(gaps) > 0 {
@@ -1050,4 +1051,24 @@ func TokenSpans(text string) [][2]int {
 		out = append(out, [2]int{t.pos, t.pos + len(t.text)})
 	}
 	return out
+}
+
+// looksLikeCall: an identifier character followed (after whitespace) by '('.
+func looksLikeCall(text string) bool {
+	for i := 0; i < len(text); i++ {
+		if text[i] != '(' {
+			continue
+		}
+		j := i - 1
+		for j >= 0 && (text[j] == ' ' || text[j] == '\t' || text[j] == '\n' || text[j] == '\r') {
+			j--
+		}
+		if j >= 0 {
+			c := text[j]
+			if c == '_' || c >= 'a' && c <= 'z' || c >= 'A' && c <= 'Z' || c >= '0' && c <= '9' {
+				return true
+			}
+		}
+	}
+	return false
 }
